@@ -1,7 +1,7 @@
 """C03 configuration for ./check (see lib/props.py)."""
 
 CFG = {
-    "modules": ["HumphreyModel.Props.C03"],
+    "modules": ["HumphreyModel.Props.C03", "HumphreyModel.Props.C03Bounds"],
     "rule": "five parsers (Request::from_stream, Response::from_stream, WebSocket Frame::from_stream, Value::parse, "
             "parse_conf), each case executed in a WORKER PROCESS with a 2 GiB address-space limit, a 4 s watchdog and a "
             "counting global allocator. Inputs: every string of up to 4 (thorough: 5) tokens over a 12-token "
@@ -25,6 +25,11 @@ CFG = {
     "level_text": "request_parser_never_panics and response_parser_never_panics for EVERY byte source and input (the models "
                   "keep Rust's panic sites explicit); request_body_le_supplied: a parsed body plus the unread rest fits in "
                   "the bytes supplied, whatever Content-Length claims, and a claimed length beyond the input is an error; "
+                  "Props/C03Bounds.lean: the same for responses in all three framings (response_body_le_supplied, "
+                  "chunked_body_le_supplied, close_delimited_body_le_supplied, any segmentation), for the total size of "
+                  "parsed header names and values of requests and responses (headers_le_supplied, "
+                  "response_headers_le_supplied) and for WebSocket frames (frame_payload_le_supplied, "
+                  "frame_alloc_le_supplied: a frame claiming 2^64-1 bytes is a read error); "
                   "the WebSocket decoder is total with truncation = read error (C10), the configuration parser never "
                   "panics (C15), the JSON parser's nesting is bounded by the depth limit (C13). Termination is Lean's "
                   "own totality check of the models (fuel bounded by input length). Real stack/heap behaviour is "
